@@ -377,6 +377,37 @@ def illformed_shapes(tier: str = "quick") -> List[Shape]:
     return S
 
 
+def graph_shapes() -> List[Shape]:
+    """C18: pipelines whose graph has two relations between one pair of nodes, or two nodes for one function."""
+    S: List[Shape] = []
+    # a keep with a run-time argument that loads the path of an earlier sibling still in the call-order group
+    S.append(Shape(
+        "g_rtload", "f1",
+        {"f1": [keep("/w/a", "f2"), keep("/w/c", "f3"), keep("/w/b", "f4", "runtime")],
+         "f2": [], "f3": [], "f4": [load("/w/a")]},
+        reads={"f2": ["v1"], "f3": ["v2"]}, vtype={"v1": "int", "v2": "int"},
+        tags=["runtime-keep-loads-sibling"]))
+    # the same, the load sitting in a plain helper below the keep
+    S.append(Shape(
+        "g_rtload_helper", "f1",
+        {"f1": [call("f2"), keep("/y/b", "f4", "runtime"), keep("/y/c", "f3")],
+         "f2": [], "f3": [], "f4": [call("f5")], "f5": [load("/y/a")]},
+        reads={"f2": ["v1"], "f3": ["v2"]}, vtype={"v1": "int", "v2": "int"},
+        dpath={"f2": "/y/a"}, tags=["runtime-keep-loads-sibling", "load-nested-helper"]))
+    # one function kept at two paths of one evaluation (same body / different bodies)
+    S.append(Shape(
+        "g_dup", "f1",
+        {"f1": [keep("/u/a", "f2"), keep("/u/b", "f2"), keep("/u/c", "f3")], "f2": [], "f3": []},
+        reads={"f2": ["v1"], "f3": ["v2"]}, vtype={"v1": "int", "v2": "int"},
+        tags=["one-function-two-paths"]))
+    S.append(Shape(
+        "g_dup_nested", "f1",
+        {"f1": [keep("/q/a", "f2"), keep("/q/n", "f3")], "f2": [], "f3": [keep("/q/b", "f2")]},
+        reads={"f2": ["v1"], "f3": ["v2"]}, vtype={"v1": "int", "v2": "int"},
+        tags=["one-function-two-paths", "kept-inner"]))
+    return S
+
+
 def boundary_shapes() -> List[Shape]:
     """C14: accepted code calling / referencing functions of a non-accepted module, and the
     mirror image (data functions living in the non-accepted module)."""
